@@ -320,7 +320,9 @@ func c04SprintArgs(args []interface{}) string {
 	return ""
 }
 
-var starFormats = []string{"a %*d z%s", "a %.*d z%s", "a %*.*d z%s", "a %-*x z%s", "a %+*.*f z%s", "a %[1]*d z%s"}
+// the last three: a wide, zero-padded, signed integer AFTER the star directive (what a star operand leaves in the
+// formatter - a negative precision, a huge width - meets the scratch-buffer arithmetic of the next directive)
+var starFormats = []string{"a %*d z%s", "a %.*d z%s", "a %*.*d z%s", "a %-*x z%s", "a %+*.*f z%s", "a %[1]*d z%s", "a %.*d z%s %+070d", "a %*.*d z%s %#0100x", "a %+070.*d z%s % 080d"}
 
 func starOperands() []interface{} {
 	var r []interface{}
@@ -419,6 +421,9 @@ func checkC04(c *Ctx) {
 			args := []interface{}{a, b, 5, "tail" + mStart}
 			if strings.Count(f, "*") == 1 {
 				args = []interface{}{a, 5, "tail" + mStart}
+			}
+			if strings.Contains(f, "070") || strings.Contains(f, "0100") {
+				args = append(args, 7)
 			}
 			if dt := c04Compare(f, args, w.SeenS); dt != "" {
 				w.Fail("star-operands", map[string]interface{}{"F": f, "A": fmt.Sprintf("%T(%v)", a, a), "B": fmt.Sprintf("%T(%v)", b, b)}, dt)
